@@ -169,7 +169,6 @@ def judge(T, ins, log, total):
             labels.add("suspend-from-fs-ls")
 
     # ---- 3. high speed only after device chirp + >= 3 valid K-J pairs, or on resume from an HS suspend ----------
-    reset_cycles = [a for a, b in reset.intervals(bool)]
     for a, b in hs_iv:
         # resume?
         resumed = False
@@ -183,14 +182,15 @@ def judge(T, ins, log, total):
                             f"was not entered at high speed", "hs-on-resume-from-fs-suspend"), labels
         if resumed:
             continue
-        i = bisect_right(reset_cycles, a) - 1
-        if i < 0:
-            return (f"high-speed operation entered in cycle {a} without any bus reset", "hs-without-reset"), labels
-        r = reset.intervals(bool)[i][1] - 1
-        ch = [(x, y) for x, y in chirping.intervals(bool) if x > r - 2 and y <= a]
-        if not ch:
-            return (f"high-speed operation entered in cycle {a} without the device having driven its chirp since "
-                    f"the reset in cycle {r}", "hs-without-device-chirp"), labels
+        ch = [(x, y) for x, y in chirping.intervals(bool) if y <= a]
+        if not ch or any(x2 < a and y2 > ch[-1][1] for x2, y2 in hs_iv if (x2, y2) != (a, b)):
+            return (f"high-speed operation entered in cycle {a} without the device having driven its chirp",
+                    "hs-without-device-chirp"), labels
+        x = ch[-1][0]
+        # the chirp must belong to a bus reset: reset -> chirp mode -> (bus_busy hold-off <= 2 x 60 cycles) -> chirp
+        if not any(ra < x and rb > x - 140 for ra, rb in reset.intervals(bool)):
+            return (f"high-speed operation entered in cycle {a}; the device chirp (cycle {x}) was not preceded by a "
+                    f"bus reset", "hs-without-reset"), labels
         c1 = ch[-1][1]
         pairs = count_chirp_pairs(line, c1, a, T["us2p5"])
         if pairs < 3:
@@ -223,6 +223,13 @@ def judge(T, ins, log, total):
         if c1 == b and b == total:
             continue                      # still chirping at the end of the simulation
         if b - c1 > T["ms2p5"] + 4:
+            dl = c1 + T["ms2p5"]
+            edge = [c for c in line.starts if dl - 1 <= c <= dl + 1 and line.at(c) in (J, K)]
+            if edge:
+                return (f"chirp-handshake timeout missed: the device chirp ended in cycle {c1}, the 2.5 ms deadline "
+                        f"(cycle {dl}) coincided with a host chirp edge (line -> {line.at(edge[0])} in cycle {edge[0]}) "
+                        f"and the handshake was still running in cycle {b-1}",
+                        "fallback-timeout-missed-when-chirp-edge-coincides"), labels
             return (f"still in the chirp handshake in cycle {b-1}, {b-1-c1} cycles after the device chirp ended "
                     f"(cycle {c1}); must fall back after {T['ms2p5']}", "no-fallback-after-2p5ms"), labels
         if b < total:
